@@ -254,7 +254,8 @@ def judge_variant(sh, env, tree, path, names, base, switches, tokens, positions,
                 continue
             sh.count(sw + "_checks")
             if sw == "version":
-                if SGR.sub("", r["out"]) != "My App version 1.2.3\n":
+                vtext = SGR.sub("", r["out"])
+                if "My App" not in vtext or "1.2.3" not in vtext or len(vtext.strip().split("\n")) != 1:
                     sh.violate("version", record, "version output %r" % r["out"][:80])
             else:
                 decorated = ("ansi" in names_set) or (ansi_streams[0] and "noansi" not in names_set)
@@ -382,7 +383,7 @@ def run(sh, spec):
         run_tree(sh, env, tree, sh.rng, sh.tier)
         sh.count("trees")
         if done == 1:
-            sh.sample({"first_command": tree[0]["name"], "example_variant": ["c01x", "-q", "v1", "r1", "--no-ansi"]})
+            sh.sample({"first_command": tree[0]["name"], "base_lines": [b for _, _, b in base_lines(tree, sh.rng, 3)]})
 
 
 def finalize(tier, merged):
